@@ -138,8 +138,20 @@ NX_B = _norm('std::is_nothrow_constructible_v<remove_cvref_t<R>, R>')
 NX_SIG = r'(?s)explicit type\(S&& s, R&& r, Fn&& fn\) noexcept\((.*?)\)\s*:\s*_op_with_receiver<'
 
 
+# identifiers this textual check understands; a specification written with anything else (a nested noexcept operator, other
+# traits, ::value forms) is NOT judged: the extract then yields an undeclared identifier and the unit is UNDECIDED (exit 2)
+NX_KNOWN = {'std', 'is_nothrow_invocable_v', 'is_nothrow_constructible_v', 'is_invocable_v', 'is_constructible_v',
+            'remove_cvref_t', 'receiver_t', 'Fn', 'S', 'R', 'true', 'false'}
+
+
 def _nx(pred):
-    return dict(file=INJ, kind='expr', sig=NX_SIG, within=OPW_T, ctx=dict(pre=[(r'(?s)^.*$', lambda m: '1' if pred(_norm(m.group(0))) else '0')]))
+    def f(m):
+        import re as _re
+        t = _norm(m.group(0))
+        if set(_re.findall(r'[A-Za-z_]\w*', t)) - NX_KNOWN:
+            return 'vf_unrecognised_noexcept_specification'
+        return '1' if pred(t) else '0'
+    return dict(file=INJ, kind='expr', sig=NX_SIG, within=OPW_T, ctx=dict(pre=[(r'(?s)^.*$', f)]))
 
 
 # the chain walk of getAsyncStackTraceFromInitialFrame, native loop contract (index bound, unbounded in chain length):
